@@ -252,6 +252,20 @@ def o3_schedules(ctx):
     return fails, ran
 
 
+def replay_case(lines, ctx):
+    """replays of the injected -O3 schedules (`o3 lambda|x|reap`): they do not go through the line protocol"""
+    if not lines or not lines[0].startswith("o3 "):
+        return None
+    fails, ran = o3_schedules(ctx)
+    want = lines[0]
+    hit = [f for f in fails if f.case and f.case[0] == want]
+    if hit:
+        return True, "%s: %s [%s]" % (want, hit[0].clause, " ".join(hit[0].impl))
+    if fails:
+        return True, "%s did not fail, but another injected schedule did: %s" % (want, fails[0].case[0])
+    return False, "%s: PASS (%d injected schedules run)" % (want, ran)
+
+
 def extra(ctx):
     """(4) interleavings at the hand-over points: enumerate on the real library, then every trace must be accepted by the model"""
     o3fails, o3ran = o3_schedules(ctx)
